@@ -4,9 +4,9 @@
    [astep] is the atomic specification (per name: NotExist / Free / Held owner count).  Any number of
    threads (one per session id <> 0) and names; [cexec]/[aexec] collect the invocation/response history.
    Only statements, each closed by [exact], each followed by Print Assumptions. *)
-From Coq Require Import List NArith.
+From Coq Require Import List NArith ZArith.
 Import ListNotations.
-From GMS Require Import Sys.Locks Sys.LocksProofs Sys.C38Cover.
+From GMS Require Import Sys.Locks Sys.LocksProofs Sys.C38Cover Sys.C38Sql.
 Open Scope N_scope.
 
 (* one concrete step is matched by zero or more atomic specification steps with the same visible label,
@@ -91,6 +91,75 @@ Theorem C38_release_all_leaves_nothing_held :
   forall tr s t k n id c, cexec cinit tr s -> t <> 0 -> pcs s t = PRet (RCount k) -> lk s n <> Some (id, t, c).
 Proof. exact release_all_leaves_nothing_held. Qed.
 Print Assumptions C38_release_all_leaves_nothing_held.
+
+(* ---- the SQL layer (sql/expression/function/locks.go, release on disconnect) over the atomic specification ---- *)
+
+(* GET_LOCK(name, timeout) returns 1 exactly when the lock is free (or missing) or already held by the caller, and
+   then it is held by the caller with the count bumped; otherwise 0 (no return at all for a negative timeout) and
+   no lock changes *)
+Theorem C38_sql_get_lock_value :
+  forall t n tmo names s,
+  (forall l', acquire t (seen s n) = Some l' ->
+     snd (sql_step t (SGet n tmo) names s) = Some (VInt 1) /\ sget (fst (sql_step t (SGet n tmo) names s)) n = l') /\
+  (acquire t (seen s n) = None ->
+     snd (sql_step t (SGet n tmo) names s) = (if Z.ltb tmo 0 then None else Some (VInt 0)) /\
+     sget (fst (sql_step t (SGet n tmo) names s)) n = seen s n) /\
+  (forall m, m <> n -> sget (fst (sql_step t (SGet n tmo) names s)) m = sget s m).
+Proof. exact get_lock_value. Qed.
+Print Assumptions C38_sql_get_lock_value.
+
+(* RELEASE_LOCK: NULL for a lock that does not exist, 0 for a free lock or another session's lock (no effect),
+   1 for the caller's lock, which loses one count *)
+Theorem C38_sql_release_lock_value :
+  forall t n names s,
+  snd (sql_step t (SRel n) names s) =
+    Some (match sget s n with
+          | LNone => VNull
+          | LFree => VInt 0
+          | LHeld t' _ => if N.eqb t' t then VInt 1 else VInt 0
+          end) /\
+  sget (fst (sql_step t (SRel n) names s)) n = fst (release t (sget s n)) /\
+  (forall m, m <> n -> sget (fst (sql_step t (SRel n) names s)) m = sget s m).
+Proof. exact release_lock_value. Qed.
+Print Assumptions C38_sql_release_lock_value.
+
+(* IS_FREE_LOCK is 0 exactly when somebody holds the lock; IS_USED_LOCK is the holder's connection id, else NULL *)
+Theorem C38_sql_is_free_is_used_value :
+  forall t n names s,
+  snd (sql_step t (SIsFree n) names s) = Some (match holder (sget s n) with Some _ => VInt 0 | None => VInt 1 end) /\
+  snd (sql_step t (SIsUsed n) names s) = Some (match holder (sget s n) with Some o => VInt o | None => VNull end) /\
+  fst (sql_step t (SIsFree n) names s) = s /\ fst (sql_step t (SIsUsed n) names s) = s.
+Proof. exact is_free_is_used_value. Qed.
+Print Assumptions C38_sql_is_free_is_used_value.
+
+(* RELEASE_ALL_LOCKS returns the number of names the session holds *)
+Theorem C38_sql_release_all_locks_value :
+  forall t names s, NoDup names ->
+  snd (sql_step t SRelAll names s) = Some (VInt (N.of_nat (length (filter (fun m => held_by t (sget s m)) names)))).
+Proof. exact release_all_locks_value. Qed.
+Print Assumptions C38_sql_release_all_locks_value.
+
+(* RELEASE_ALL_LOCKS and disconnect free exactly the session's locks (the name list covers them by
+   C38_idle_session_set_covers_held_locks); every other lock keeps holder and count *)
+Theorem C38_sql_disconnect_frees_exactly_own_locks :
+  forall t names s o, o = SRelAll \/ o = SDisconnect ->
+  (forall m, held_by t (sget s m) = true -> In m names) ->
+  forall m, sget (fst (sql_step t o names s)) m = if held_by t (sget s m) then LFree else sget s m.
+Proof. exact disconnect_frees_exactly_own_locks. Qed.
+Print Assumptions C38_sql_disconnect_frees_exactly_own_locks.
+
+(* re-entrancy through SQL: k+1 GET_LOCKs all return 1; after j <= k RELEASE_LOCKs IS_USED_LOCK still reports the
+   session; k+1 RELEASE_LOCKs all return 1 and then IS_FREE_LOCK is 1 *)
+Theorem C38_sql_reentrant_count :
+  forall t n tmo k s, seen s n = LFree ->
+  let g := sql_iter t (SGet n tmo) (S k) s in
+  snd g = repeat (Some (VInt 1)) (S k) /\
+  (forall j, (j <= k)%nat ->
+     snd (sql_step t (SIsUsed n) [] (fst (sql_iter t (SRel n) j (fst g)))) = Some (VInt t)) /\
+  let r := sql_iter t (SRel n) (S k) (fst g) in
+  snd r = repeat (Some (VInt 1)) (S k) /\ snd (sql_step t (SIsFree n) [] (fst r)) = Some (VInt 1).
+Proof. exact sql_reentrant_count. Qed.
+Print Assumptions C38_sql_reentrant_count.
 
 (* non-vacuity: two sessions race for the same new name; one CAS wins, the other fails and re-reads *)
 Example C38_nonvacuous :
